@@ -277,6 +277,7 @@ def db_check(pid, tier, seed, profile, n_quick, n_thorough, prop_module, claims_
                       "ops": ops[:k + 1], "first_differing_step": k, "implementation_output": outs[k], "spec_output": want,
                       "attributed_to": pid, "origin": res["meta"][ci],
                       "why": "the implementation's answer differs from the documented meaning (harness/pyspec.py) although it agrees with the Coq model"})
+    mine.sort(key=lambda ck_: (ck_ not in spec_at, ck_))       # divergences where the documented meaning is contradicted first
     for ci, k in mine[:3]:
         csv, auto, ops, outs = cases[ci]
         ops = ops[:k + 1]
